@@ -195,15 +195,17 @@ def cmd_table():
         det = chk.get(own, {})
         others = [p for p, r in chk.items() if p != own and r.get('detected')]
         quiet = [p for p, r in chk.items() if p != own and not r.get('detected')]
+        fa = (m.get('first_attempt') or {}).get(own)
+        first = '-' if fa is None else (('caught' + ('' if fa.get('concrete_input') else ' (no-failing-input-found)')) if fa.get('detected') else 'MISSED')
         rows.append(f"| {name} | {own} | {str(m.get('summary', ''))[:150].replace('|', '/')} | {str(m.get('needs_to_manifest', ''))[:110].replace('|', '/')} | "
                     f"{'yes' if conf.get('confirmed') else 'NO'} | {'**caught**' if det.get('detected') else ('missed' if det else 'not run')}"
                     f"{' (concrete replay)' if det.get('concrete_input') else (' (no-failing-input-found)' if det.get('detected') else '')} | "
-                    f"{'; '.join(det.get('signatures', [])[:2])[:160].replace('|', '/')} | {', '.join(others) or '-'} | {', '.join(quiet) or '-'} |")
+                    f"{'; '.join(det.get('signatures', [])[:2])[:160].replace('|', '/')} | {first} | {', '.join(others) or '-'} | {', '.join(quiet) or '-'} |")
     text = ('# Seeded changes and which checks catch them\n\n'
             'Generated by `harness/run_seeded.py table`. Each change was written by a fresh sub-agent that saw only the property\n'
             'text and its own scratch worktree; "confirmed" = applies, existing suite passes with it, demo fails with it and passes without it.\n\n'
-            '| seed | property | change | needs | confirmed | own check (quick) | signature / broken obligation | also alarmed | stayed quiet |\n'
-            '|---|---|---|---|---|---|---|---|---|\n' + '\n'.join(rows) + '\n')
+            '| seed | property | change | needs | confirmed | own check (quick), now | signature / broken obligation | first attempt (before strengthening) | also alarmed | stayed quiet |\n'
+            '|---|---|---|---|---|---|---|---|---|---|\n' + '\n'.join(rows) + '\n')
     with open(os.path.join(SEEDED, 'RESULTS.md'), 'w') as f:
         f.write(text)
     print(text)
